@@ -38,8 +38,15 @@ impl Hasher for KHasher {
 }
 impl BuildHasher for RandomState { type Hasher = KHasher; fn build_hasher(&self) -> KHasher { KHasher(0) } }
 
-pub struct HashMap<K, V, S = RandomState> { e: [Option<(u64, K, V)>; CAP], len: usize, s: S }
-impl<K, V, S: Default> Default for HashMap<K, V, S> { fn default() -> Self { Self { e: [const { None }; CAP], len: 0, s: S::default() } } }
+/// `used[i]` mirrors `e[i].is_some()`. All occupancy decisions are taken on the explicit flags: when `(u64, K, V)` has a
+/// pointer niche, `Option::is_some` is a read of that niche, which CBMC's symbolic execution does not constant-fold, so
+/// even an empty map would look symbolic (every slot explored, states merged).
+pub struct HashMap<K, V, S = RandomState> { e: [Option<(u64, K, V)>; CAP], used: [bool; CAP], len: usize, s: S }
+#[inline(always)]
+fn ent<'a, K, V>(e: &'a Option<(u64, K, V)>) -> &'a (u64, K, V) { match e { Some(t) => t, None => unreachable!("kstd model: used flag without entry") } }
+#[inline(always)]
+fn ent_mut<'a, K, V>(e: &'a mut Option<(u64, K, V)>) -> &'a mut (u64, K, V) { match e { Some(t) => t, None => unreachable!("kstd model: used flag without entry") } }
+impl<K, V, S: Default> Default for HashMap<K, V, S> { fn default() -> Self { Self { e: [const { None }; CAP], used: [false; CAP], len: 0, s: S::default() } } }
 impl<K, V> HashMap<K, V, RandomState> { pub fn new() -> Self { Self::default() } }
 impl<K: ::std::fmt::Debug, V: ::std::fmt::Debug, S> ::std::fmt::Debug for HashMap<K, V, S> {
   fn fmt(&self, f: &mut ::std::fmt::Formatter<'_>) -> ::std::fmt::Result { f.debug_map().entries(self.iter()).finish() }
@@ -47,28 +54,29 @@ impl<K: ::std::fmt::Debug, V: ::std::fmt::Debug, S> ::std::fmt::Debug for HashMa
 impl<K, V, S> HashMap<K, V, S> {
   pub fn len(&self) -> usize { self.len }
   pub fn is_empty(&self) -> bool { self.len == 0 }
-  pub fn clear(&mut self) { let mut i = 0; while i < CAP { self.e[i] = None; i += 1; } self.len = 0; }
-  pub fn iter(&self) -> MapIter<'_, K, V> { MapIter { e: &self.e, i: 0 } }
+  pub fn clear(&mut self) { let mut i = 0; while i < CAP { if self.used[i] { self.e[i] = None; self.used[i] = false; } i += 1; } self.len = 0; }
+  pub fn iter(&self) -> MapIter<'_, K, V> { MapIter { e: &self.e, used: &self.used, i: 0 } }
   /// Stores into the first free slot and returns a reference to the stored value.
   fn push(&mut self, h: u64, k: K, v: V) -> &mut V {
     assert!(self.len < CAP, "KMODEL-CAPACITY: HashMap/HashSet");
     self.len += 1;
     let mut k_ = 0;
     while k_ < CAP {
-      if self.e[k_].is_none() {
+      if !self.used[k_] {
         self.e[k_] = Some((h, k, v));
-        match &mut self.e[k_] { Some(t) => return &mut t.2, None => unreachable!() }
+        self.used[k_] = true;
+        return &mut ent_mut(&mut self.e[k_]).2;
       }
       k_ += 1;
     }
     unreachable!()
   }
 }
-pub struct MapIter<'a, K, V> { e: &'a [Option<(u64, K, V)>; CAP], i: usize }
+pub struct MapIter<'a, K, V> { e: &'a [Option<(u64, K, V)>; CAP], used: &'a [bool; CAP], i: usize }
 impl<'a, K, V> Iterator for MapIter<'a, K, V> {
   type Item = (&'a K, &'a V);
   fn next(&mut self) -> Option<Self::Item> {
-    while self.i < CAP { let i = self.i; self.i += 1; if let Some(t) = &self.e[i] { return Some((&t.1, &t.2)); } }
+    while self.i < CAP { let i = self.i; self.i += 1; if self.used[i] { let t = ent(&self.e[i]); return Some((&t.1, &t.2)); } }
     None
   }
 }
@@ -77,15 +85,15 @@ impl<K: Eq + Hash, V, S: BuildHasher> HashMap<K, V, S> {
   pub fn get<Q: ?Sized + Hash + Eq>(&self, q: &Q) -> Option<&V> where K: Borrow<Q> {
     let hq = self.h(q);
     let mut i = 0;
-    while i < CAP { if let Some(t) = &self.e[i] { if t.0 == hq && t.1.borrow() == q { return Some(&t.2); } } i += 1; }
+    while i < CAP { if self.used[i] { let t = ent(&self.e[i]); if t.0 == hq && t.1.borrow() == q { return Some(&t.2); } } i += 1; }
     None
   }
   pub fn get_mut<Q: ?Sized + Hash + Eq>(&mut self, q: &Q) -> Option<&mut V> where K: Borrow<Q> {
     let hq = self.h(q);
     let mut i = 0;
     while i < CAP {
-      let hit = match &self.e[i] { Some(t) => t.0 == hq && t.1.borrow() == q, None => false };
-      if hit { match &mut self.e[i] { Some(t) => return Some(&mut t.2), None => unreachable!() } }
+      let hit = self.used[i] && { let t = ent(&self.e[i]); t.0 == hq && t.1.borrow() == q };
+      if hit { return Some(&mut ent_mut(&mut self.e[i]).2); }
       i += 1;
     }
     None
@@ -101,8 +109,8 @@ impl<K: Eq + Hash, V, S: BuildHasher> HashMap<K, V, S> {
     let hq = self.h(q);
     let mut i = 0;
     while i < CAP {
-      let hit = match &self.e[i] { Some(t) => t.0 == hq && t.1.borrow() == q, None => false };
-      if hit { self.len -= 1; return self.e[i].take().map(|t| t.2); }
+      let hit = self.used[i] && { let t = ent(&self.e[i]); t.0 == hq && t.1.borrow() == q };
+      if hit { self.len -= 1; self.used[i] = false; return match self.e[i].take() { Some(t) => Some(t.2), None => unreachable!("kstd model: used flag without entry") }; }
       i += 1;
     }
     None
@@ -152,11 +160,11 @@ impl<T: Eq + Hash, S: BuildHasher> HashSet<T, S> {
   pub fn insert(&mut self, t: T) -> bool { if self.m.contains_key(&t) { false } else { self.m.insert(t, ()); true } }
   pub fn remove<Q: ?Sized + Hash + Eq>(&mut self, q: &Q) -> bool where T: Borrow<Q> { self.m.remove(q).is_some() }
 }
-pub struct SetIntoIter<T> { e: [Option<(u64, T, ())>; CAP], i: usize }
+pub struct SetIntoIter<T> { e: [Option<(u64, T, ())>; CAP], used: [bool; CAP], i: usize }
 impl<T> Iterator for SetIntoIter<T> {
   type Item = T;
   fn next(&mut self) -> Option<T> {
-    while self.i < CAP { let i = self.i; self.i += 1; if let Some(t) = self.e[i].take() { return Some(t.1); } }
+    while self.i < CAP { let i = self.i; self.i += 1; if self.used[i] { self.used[i] = false; return match self.e[i].take() { Some(t) => Some(t.1), None => unreachable!("kstd model: used flag without entry") }; } }
     None
   }
   // constant hint: keeps `collect::<Vec<_>>()` at a concrete initial allocation size under CBMC
@@ -166,12 +174,13 @@ impl<T, S> IntoIterator for HashSet<T, S> {
   type Item = T; type IntoIter = SetIntoIter<T>;
   fn into_iter(self) -> Self::IntoIter {
     let mut e = self.m.e;
-    if unsafe { SYMBOLIC_ORDER } { permute(&mut e); }
-    SetIntoIter { e, i: 0 }
+    let mut used = self.m.used;
+    if unsafe { SYMBOLIC_ORDER } { permute(&mut e, &mut used); }
+    SetIntoIter { e, used, i: 0 }
   }
 }
 /// Applies a solver-chosen permutation (sequence of CAP-1 guarded adjacent... full: a chosen sequence of swaps).
-fn permute<X>(e: &mut [Option<X>; CAP]) {
+fn permute<X>(e: &mut [Option<X>; CAP], used: &mut [bool; CAP]) {
   #[cfg(kani)]
   {
     // selection-style: for each position i choose any j >= i to swap in; reaches every permutation
@@ -180,10 +189,10 @@ fn permute<X>(e: &mut [Option<X>; CAP]) {
       let j: usize = kani::any();
       kani::assume(j >= i && j < CAP);
       let mut k = i + 1;
-      while k < CAP { if k == j { e.swap(i, k); } k += 1; }
+      while k < CAP { if k == j { e.swap(i, k); used.swap(i, k); } k += 1; }
       i += 1;
     }
   }
   #[cfg(not(kani))]
-  { let _ = e; }
+  { let _ = (e, used); }
 }
